@@ -224,6 +224,19 @@ func genWire(r *rand.Rand, sp elemSpec, maxVar int) []byte {
 				b[i] = byte(r.Uint32())
 			}
 		}
+		if sp.Type == entities.String && n >= 4 && r.IntN(6) == 0 {
+			// text in characters of 2, 3 and 4 bytes: n bytes are far fewer than n characters (the
+			// variable-length prefix counts bytes)
+			b = b[:0]
+			for len(b) < n {
+				c := []string{"\u00e9", "\u20ac", "\U0001F600", "x"}[r.IntN(4)]
+				if len(b)+len(c) > n {
+					c = "x"
+				}
+				b = append(b, c...)
+			}
+			return b
+		}
 		if sp.Type == entities.String && n > 0 && r.IntN(4) == 0 {
 			// arbitrary (also non-UTF-8) bytes are legal Go strings
 			b[r.IntN(n)] = byte(r.Uint32())
